@@ -461,6 +461,11 @@ pub struct SimRing {
     /// nothing is left, and while idle only runs again for an enter that carries SQ_WAKEUP. The
     /// `Enter` event then reports the number it took as `to_submit` (a10 itself passes 0).
     pub sqpoll_eager: bool,
+    /// Deferred completions (DEFER_TASKRUN), opt-in per ring: `Some(b)` = completions wait in
+    /// `deferred` and at most `b` of them are handed over by each `io_uring_enter(GETEVENTS)`
+    /// (Linux: 20; a smaller bound is the adversarial choice).
+    pub defer_batch: Option<u32>,
+    pub deferred: VecDeque<(Option<u64>, Cqe)>,
 }
 
 unsafe impl Send for SimRing {}
@@ -1245,6 +1250,8 @@ fn sim_setup(entries: u32, p: *mut Params) -> i64 {
             None
         },
         sqpoll_eager: SQPOLL_EAGER.load(Ordering::SeqCst),
+        defer_batch: None,
+        deferred: VecDeque::new(),
     };
     with_sim(|s| {
         s.rings.insert(fd, ring);
@@ -1611,8 +1618,27 @@ impl SimRing {
         }
     }
 
-    /// Publish a CQE (KC3): slot first, then the tail; overflow list when full.
+    /// Publish a CQE (KC3): slot first, then the tail; overflow list when full. On a ring with
+    /// deferred completions (`defer_batch`, IORING_SETUP_DEFER_TASKRUN: probed on the real kernel by
+    /// `a10h kc`) nothing is published outside `io_uring_enter(GETEVENTS)`: the completion waits.
     pub fn post_raw(&mut self, seq: Option<u64>, cqe: Cqe, ev: &mut Vec<KEv>) {
+        if self.defer_batch.is_some() {
+            self.deferred.push_back((seq, cqe));
+            return;
+        }
+        self.post_now(seq, cqe, ev);
+    }
+
+    /// `io_uring_enter(GETEVENTS)` on a ring with deferred completions hands over one batch.
+    pub fn run_deferred(&mut self, ev: &mut Vec<KEv>) {
+        let Some(b) = self.defer_batch else { return };
+        for _ in 0..b {
+            let Some((seq, cqe)) = self.deferred.pop_front() else { break };
+            self.post_now(seq, cqe, ev);
+        }
+    }
+
+    fn post_now(&mut self, seq: Option<u64>, cqe: Cqe, ev: &mut Vec<KEv>) {
         if !self.overflow.is_empty() || self.cq_count() >= self.cq_entries {
             self.overflow.push_back((seq, cqe));
             ev.push(KEv::Posted {
@@ -2080,6 +2106,7 @@ fn sim_enter(fd: i32, to_submit: u32, min_complete: u32, flags: u32, arg: usize)
             let mut wait: i64 = 0;
             if flags & ENTER_GETEVENTS != 0 {
                 ring.flush_overflow();
+                ring.run_deferred(events);
                 let want = min_complete.min(ring.cq_entries);
                 if ring.cq_count() < want && wake_targets.iter().all(|w| w.1 != fd) {
                     wait = match (script.wait_errno, timeout) {
